@@ -912,6 +912,20 @@ def c20(tier):
     for h in RESET_H:
         for p in RESET_P:
             out.append(reset_inst(h, p))
+    # stack timers in front of / behind an application timer with different times (the reset deletes a partly elapsed head timer)
+    for h, vs in (('WCT', (2, 3, 0)), ('CWT', (3, 2, 0)), ('WCTT', (3, 2, 0, 0)), ('XCT', (2, 3, 0)), ('khCT', (3, 0, 2, 0)), ('NECT', (0, 2, 3, 0))):
+        for p in ('TTTT', 'NGTT', 'uvTT'):
+            out.append(reset_inst(h, p, vals=vs + (2, 2, 2, 2)))
+    # LSS activate-bit-timing pending (node waits in INIT, switch-delay timer running) when the application resets the node
+    for p in ('TTTT', 'lcrT', 'TTTTT'):
+        out.append(reset_inst('LA', p, api=True, vals=(0, 3, 2, 2, 2, 2, 2, 2)))
+    if tier != 'quick':
+        for h in RESET_H:
+            for p in RESET_P[:5]:
+                out.append(reset_inst(h, p, rst=129))
+        for h in ('L', 'c', 'WXkhNE', 'M', 'a'):
+            for p in RESET_P[:4]:
+                out.append(reset_inst(h, p, api=True))
     return out
 
 
